@@ -32,4 +32,4 @@ def main(tier, seed):
 
 
 def replay(path):
-    return deps_run.replay(path, ("edges", "dbl"))
+    return deps_run.replay(path)
